@@ -17,12 +17,13 @@ def load_known():
 
 
 class Instance:
-    __slots__ = ('rule', 'file', 'function', 'key', 'ok', 'detail', 'line', 'unrecognised')
+    __slots__ = ('rule', 'file', 'function', 'key', 'ok', 'detail', 'line', 'unrecognised', 'reads')
 
     def __init__(self, rule, file, function, key, ok, detail, line):
         self.rule, self.file, self.function, self.key = rule, file, function, key
         self.ok, self.detail, self.line = ok, detail, line
         self.unrecognised = None
+        self.reads = ()          # further functions the verdict was read from: [(path, qualname)]
 
     def as_dict(self):
         return {'rule': self.rule, 'file': self.file, 'function': self.function, 'key': self.key,
@@ -45,7 +46,7 @@ class Ctx:
         self.assumptions = []
 
     # -- recording -----------------------------------------------------------
-    def inst(self, rule, where, key, ok, detail='', line=None):
+    def inst(self, rule, where, key, ok, detail='', line=None, reads=()):
         """Record one rule instance.  ``where`` is a model.Func, a
         (path, function-name) pair or a path."""
         if hasattr(where, 'qualname'):
@@ -59,6 +60,7 @@ class Ctx:
             file, fn = where, ''
         rid = rule if rule.startswith(self.prop) else '%s.%s' % (self.prop, rule)
         i = Instance(rid, file, fn, key, bool(ok), detail, line or 0)
+        i.reads = tuple((f_.path, f_.qualname) if hasattr(f_, 'qualname') else tuple(f_) for f_ in reads)
         self.instances.append(i)
         return bool(ok)
 
